@@ -9,6 +9,22 @@ ROOT = os.path.dirname(os.path.dirname(os.path.abspath(__file__)))
 
 # property -> (design section, level text, level note, technique)
 BUILT = {
+    "C02": ("4/C02",
+            "KeyLock.tla models the table (lookup-or-create, read/write counts, free at 0/0), Go's RWMutex "
+            "protocol (writer announce + drain; alternative policy Any), per-shard registration and "
+            "multi-key acquisition in (shard, list) order; TLC checks exclusion, reclaim, count accounting, "
+            "key independence and - with deadlock checking on - that consistently ordered duplicate-free "
+            "lists never deadlock (3 procs, 3 keys, 2 shards, all 7 ordered lists, both modes: 1.2M states); "
+            "rotated lists and a free-ignores-writers deviation are kept as non-vacuity witnesses. Schedules "
+            "(TLC plans + random) run step by step on all ten locker variants with global quiescence; the "
+            "observed held/parked/idle vectors are judged by the policy-free contract KeyLockObs.tla, where "
+            "TLC searches for the keys each parked multi-key caller already holds (compatible, monotone, "
+            "every parked caller justified); leftovers or parked callers at the end are rejected. "
+            "Free-running stress is judged on monitor events; a runtime fatal error inside neptune is a "
+            "crash event no action explains.",
+            "Exhaustive only within MC constants; schedules on real code are sampled. The contract does not "
+            "fix reader/writer preference. Trusted: TLC, runtime.Stack wait reasons, read-only verif accessors.",
+            "TLA+ spec + TLC exhaustive check (incl. deadlock) + step-by-step schedule replay with TLC trace validation"),
     "C01": ("4/C01",
             "Semap.tla (one action per hold of the map mutex: acquire, release with FIFO grant loop, "
             "cancel-wake, cancel-resolve; entries have identities) is model-checked exhaustively (3 procs, "
@@ -91,7 +107,7 @@ def main():
 
 
 NA = {}
-HOOK_COMMITS = ["d87e89d"]
+HOOK_COMMITS = ["d87e89d", "79d964d"]
 
 if __name__ == "__main__":
     main()
